@@ -24,3 +24,12 @@ func VerifBackoff(cfg DispatcherConfig, attempts int) (lo, hi time.Duration) {
 	after := time.Now().UTC()
 	return next.Sub(after), next.Sub(before)
 }
+
+// VerifClaim performs the dispatcher's claim step (attempts+1 is persisted by the claim).
+func VerifClaim(ctx context.Context, m *StorageMiddleware) (*OutboxEntry, bool, error) { return m.claim(ctx) }
+
+// VerifDispatchEntry performs publish + delete / dead-letter / release for an entry claimed before.
+func VerifDispatchEntry(ctx context.Context, m *StorageMiddleware, e *OutboxEntry) { m.dispatchEntry(ctx, e) }
+
+// VerifClaimOwner returns the owner string this instance claims with.
+func VerifClaimOwner(m *StorageMiddleware) string { return m.claimOwner }
